@@ -728,8 +728,8 @@ Proof.
 Qed.
 
 (* a request that ended with the client-side timeout *)
-Lemma timeout_sound p idem spec cl0 nodes down cs assign frs t0 tmo tret margin :
-  check_timeout p idem spec cl0 nodes down cs assign frs t0 tmo tret margin = true ->
+Lemma timeout_sound p idem spec cl0 nodes down cs assign frs t0 tmo tret margin smargin :
+  check_timeout p idem spec cl0 nodes down cs assign frs t0 tmo tret margin smargin = true ->
   let max := match gate_open idem spec with Some m => m | None => 0%nat end in
   (1 <= List.length cs <= 1 + max)%nat
   /\ NoDup (concat (map c_plan cs)) /\ incl (concat (map c_plan cs)) nodes
@@ -739,36 +739,41 @@ Lemma timeout_sound p idem spec cl0 nodes down cs assign frs t0 tmo tret margin 
                     /\ seq_ok (sub_frames i assign frs) = true
                     /\ (forall t, In t (conn_fail_targets tr) -> In t down)
                     /\ shards_ok down (sub_frames i assign frs) = true
+                    /\ free_answer_ok t0 tmo smargin c (sub_frames i assign frs) = true
                     /\ (gate_open idem spec = None -> fiber_finished c r = false))
   /\ (List.length frs <= frame_bound p (1 + max) (List.length nodes))%nat
   /\ t0 + tmo <= tret
   /\ (forall f, In f frs -> f_arr f <= tret + margin).
 Proof.
   unfold check_timeout. intros H. cbv zeta.
-  apply andb_true_iff in H as [H H4]. apply andb_true_iff in H as [H H3].
-  apply andb_true_iff in H as [H1 H2].
+  apply andb_true_iff in H as [H H4]. apply andb_true_iff in H as [H H5].
+  apply andb_true_iff in H as [H H3]. apply andb_true_iff in H as [H1 H2].
   destruct (multi_sound _ _ _ _ _ _ _ _ _ H1) as [Ha [Hb [Hc Hd]]].
   split; [assumption|]. split; [assumption|]. split; [assumption|]. split.
   - intros i c Hi. destruct (Hd i c Hi) as [tr [r [Hf [Hm [Hs [Hcf [Hsh Hfc]]]]]]].
-    exists tr, r. repeat split; try assumption.
-    intros Hg. rewrite Hg in H4. rewrite forallb_forall in H4.
     pose proof (indexed_from_nth cs 0 i c Hi) as Hin. cbn in Hin.
-    specialize (H4 (i, c, fiber_check p idem cl0 down c (sub_frames i assign frs))).
-    unfold fiber_results in H4. rewrite in_map_iff in H4.
-    assert (Hx : match fiber_check p idem cl0 down c (sub_frames i assign frs) with
-                 | Some r0 => negb (fiber_finished c r0) | None => false end = true).
-    { apply H4. exists (i, c). split; [reflexivity|exact Hin]. }
-    rewrite Hfc in Hx. now apply negb_true_iff.
+    exists tr, r. repeat split; try assumption.
+    + rewrite forallb_forall in H5. exact (H5 (i, c) Hin).
+    + intros Hg. rewrite Hg in H4. rewrite forallb_forall in H4.
+      specialize (H4 (i, c, fiber_check p idem cl0 down c (sub_frames i assign frs))).
+      unfold fiber_results in H4. rewrite in_map_iff in H4.
+      assert (Hx : match fiber_check p idem cl0 down c (sub_frames i assign frs) with
+                   | Some r0 => negb (fiber_finished c r0) | None => false end = true).
+      { apply H4. exists (i, c). split; [reflexivity|exact Hin]. }
+      rewrite Hfc in Hx. now apply negb_true_iff.
   - split; [eapply multi_bound; eassumption|]. split; [now apply N.leb_le|].
-    intros f Hf. unfold prop_timeout_frames in H3. rewrite forallb_forall in H3. apply N.leb_le. auto.
+    intros f Hf. unfold late_frames_ok in H3. rewrite forallb_forall in H3. apply N.leb_le. auto.
 Qed.
 
-(* the predicate the driver evaluates on a rejected timed-out request holds of every accepted one *)
-Lemma timeout_prop_frames p idem spec cl0 nodes down cs assign frs t0 tmo tret margin :
-  check_timeout p idem spec cl0 nodes down cs assign frs t0 tmo tret margin = true ->
+(* the boolean the driver evaluates on a rejected timed-out request: a projection of the third conjunct
+   of check_timeout (all frames) onto the frames after the first *)
+Lemma timeout_prop_frames p idem spec cl0 nodes down cs assign frs t0 tmo tret margin smargin :
+  check_timeout p idem spec cl0 nodes down cs assign frs t0 tmo tret margin smargin = true ->
   prop_timeout_frames tret margin frs = true.
 Proof.
-  unfold check_timeout. intros H. apply andb_true_iff in H as [H _]. now apply andb_true_iff in H as [_ H].
+  unfold check_timeout. intros H. apply andb_true_iff in H as [H _]. apply andb_true_iff in H as [H _].
+  apply andb_true_iff in H as [_ H]. unfold prop_timeout_frames. destruct frs as [|f rest]; [reflexivity|].
+  unfold late_frames_ok in *. cbn [forallb] in H. now apply andb_true_iff in H as [_ H].
 Qed.
 
 Lemma shards_ok_pair down pre f g post :
